@@ -11,7 +11,7 @@ from vlib.core import Result
 
 RULE = ("adapters: every DFI command code x cs_n x masked (x wck_sync_done) with walking-one, all-ones, zero and random "
         "address/bank values; pipeline: 8-phase traces with commands at every phase and all spacings 0..2*nphases between two "
-        "commands plus random dense traffic, basic and extended overlap check; a case = one DFI phase value (adapter) or one "
+        "commands plus random dense traffic, plus deselected phases (cs_n = 1) with non-idle command/address lines next to real commands, basic and extended overlap check; a case = one DFI phase value (adapter) or one "
         "cycle of 8 phases (pipeline); non-trivial = carries a command; distinct by value")
 TRUSTED = ["the LPDDR5 single-phase command path inside LPDDR5PHY (PipeValid buffering of the second half) is not co-simulated; "
            "only its adapter is (modelled, not verified: lpddr5/basephy.py command path)",
@@ -125,6 +125,19 @@ def make_trace(rnd, mode, ncyc, n=8):
             for g in (g0, g0 + gap):
                 c = list(tr[g // n]); c[g % n] = cmd(); tr[g // n] = c
             t += 4
+    elif mode[0] == "ghost":       # as "rand", plus deselected phases (cs_n = 1) whose command/address lines are not idle
+        dens = mode[1]
+        for t in range(ncyc):
+            tr[t] = [cmd() if rnd.random() < dens else (((1,) + cmd()[1:]) if rnd.random() < 0.5 else idle) for _ in range(n)]
+    elif mode[0] == "ghostpair":   # a deselected non-idle phase at phase p, a real command `gap` phases later
+        _, p, gap = mode
+        t = 2
+        while t + 4 < ncyc:
+            g0 = t * n + p
+            c = list(tr[g0 // n]); c[g0 % n] = (1,) + cmd()[1:]; tr[g0 // n] = c
+            g1 = g0 + gap
+            c = list(tr[g1 // n]); c[g1 % n] = cmd(); tr[g1 // n] = c
+            t += 4
     else:                          # random density
         dens = mode[1]
         for t in range(ncyc):
@@ -151,7 +164,7 @@ def job_pipe(args):
                                                         cmd_nphases_span=4, extended_overlaps_check=bool(ext))
     for mode in modes:
         dut = Dut()
-        ncyc = 40 if mode[0] in ("pair", "chain") else (60 if tier == "quick" else 400)
+        ncyc = 40 if mode[0] in ("pair", "chain", "ghostpair") else (60 if tier == "quick" else 400)
         tr = make_trace(rnd, mode, ncyc, n)
         obs = []
 
@@ -225,6 +238,8 @@ def run(tier, seed):
             for i in range(0, len(chunk), 8):
                 jobs.append((job_pipe, (ext, masked, chunk[i:i + 8], tier, seed)))
             jobs.append((job_pipe, (ext, masked, [("rand", 0.05), ("rand", 0.2), ("rand", 0.6)], tier, seed)))
+            # deselected phases (cs_n = 1) with non-idle command/address lines next to real commands: DFI allows them
+            jobs.append((job_pipe, (ext, masked, [("ghost", 0.05), ("ghost", 0.2)] + [("ghostpair", p, gap) for p in (0, 3, 6, 7) for gap in (1, 2, 3, 4)][(masked * 8):(masked * 8 + 8)], tier, seed)))
         # known finding demonstrated on every run (directed chains, both overlap-check flavours)
         jobs.append((job_pipe, (ext, 1, [("chain", 7), ("chain", 3)], tier, seed)))
     res = Result()
